@@ -202,7 +202,10 @@ partial def atreeOfJson (j : Json) : P Emboss.Bounds.ATree := do
 
 def moduleOfJson (j : Json) : P Emboss.Constraints.Module := do
   let gated ← match j.getObjVal? "gated" with
-    | .ok g => (← arr g).mapM atreeOfJson
+    | .ok g => (← arr g).mapM (fun x => do
+        match ← arr x with
+        | [syn, t] => do pure ((← syn.getBool?), (← atreeOfJson t))
+        | _ => throw "bad gated")
     | .error _ => pure []
   pure { attrs := ← attrsOf j, types := ← forestOfJson (← arr (← j.getObjVal? "types")),
          staticRefs := ← (← arr (← j.getObjVal? "refs")).mapM (·.getBool?), gated := gated }
